@@ -25,7 +25,7 @@ META = dict(
     level_note=("Bounds: depth 1 with the full alphabet, depth 2 with a reduced alphabet; meshes of 6-12 cells. Values are compared to 1e-9 "
                 "relative (cos(k pi/2) is computed in floating point). The aliasing patterns P1/P2 of C13 are excluded (known finding of C13). "
                 "Trusted: TLC, tlaval parser, harness/geomheap.py projection."),
-    technique="TLA+ heap model (Geom.tla, C13.tla, C12.tla) + TLC exhaustive; rotation histories replayed into code; code histories validated by TLC (C13Trace.tla)",
+    technique="TLA+ heap model (Geom.tla, C13.tla, C12.tla) + TLC exhaustive; rotation histories replayed into code; code histories validated by TLC (C13Trace.tla); Apalache on the unbounded 2-d core (C12Core.tla: the quarter turn carries cell centres to cell centres)",
     design_ref="DESIGN.md section 7 C12",
 )
 RULE = ("a case is one (history of rotate90 calls, embedding); non-trivial = at least one accepted rotation with k mod 4 != 0; "
@@ -39,6 +39,9 @@ def _rename(part):
 
 def run(ctx):
     df = core.import_library()
+    # the unbounded integer core (spec/C12Core.tla): Apalache discharges the clauses on the lattice of any size
+    from .. import apalache
+    apalache.run_stage(ctx, module="C12Core.tla", obligations=apalache.C12_OBLIGATIONS, claim=apalache.C12_CLAIM)
     embs = c13.EMBS_QUICK if ctx.tier == "quick" else c13.EMBS_THOROUGH
     cfgs = ["C12_quick.cfg", "C12_quick2.cfg"] if ctx.tier == "quick" else ["C12_thorough.cfg", "C12_thorough2.cfg"]
     for cfg in cfgs:
